@@ -59,6 +59,7 @@ func scopeOf(rel string) string {
 }
 
 type mapSite struct {
+	expr          string
 	pkg, fn       string
 	ord           int
 	typ, syn, scp string
@@ -208,10 +209,14 @@ func (w *walker) calls(n ast.Node) []string {
 		if id, ok := c.Fun.(*ast.Ident); ok {
 			if _, isB := w.p.TypesInfo.Uses[id].(*types.Builtin); isB {
 				switch id.Name {
-				case "len", "append", "make", "new", "cap", "copy", "min", "max":
+				case "len", "append", "make", "new", "cap", "copy", "min", "max", "delete":
 					return true
 				}
 			}
+		}
+		if sel, ok := c.Fun.(*ast.SelectorExpr); ok && isMap(w.p.TypesInfo.TypeOf(sel.X)) &&
+			(sel.Sel.Name == "Add" || sel.Sel.Name == "Remove" || sel.Sel.Name == "AddMulti" || sel.Sel.Name == "Has") {
+			return true // set operations are classified as map writes / lookups, not as calls
 		}
 		name := w.calleeName(c.Fun)
 		if strings.Contains(name, ".Logger") || strings.HasPrefix(name, "log.") {
@@ -229,13 +234,79 @@ func (w *walker) calls(n ast.Node) []string {
 }
 
 type leafKinds struct {
-	collect   map[types.Object]bool // slices appended to / index-written
-	mapWrite  bool
-	accum     bool
-	local     bool
-	ret       bool
-	effect    bool
-	outerAsgn bool
+	collect     map[types.Object]bool // slices appended to / index-written
+	mapWrite    bool
+	insert      bool // some map write inserts / overwrites an entry
+	del         bool // some map write deletes an entry
+	loose       bool // a map write that is not provably order-insensitive (key is not the visited key and value is not a constant, or the value reads the destination map)
+	accum       bool
+	local       bool
+	ret         bool
+	retNonConst bool // a return / break that is neither guarded by `<range key> == x` nor returns constants only
+	effect      bool
+	outerAsgn   bool
+	keyEqDepth  int // > 0 while inside `if <range key> == x { … }`
+}
+
+func isConstExpr(e ast.Expr) bool {
+	switch x := e.(type) {
+	case *ast.BasicLit:
+		return true
+	case *ast.Ident:
+		return x.Name == "true" || x.Name == "false" || x.Name == "nil"
+	case *ast.CompositeLit:
+		return len(x.Elts) == 0
+	case *ast.ParenExpr:
+		return isConstExpr(x.X)
+	}
+	return false
+}
+
+func (w *walker) mentions(e ast.Expr, obj types.Object) bool {
+	found := false
+	if e == nil || obj == nil {
+		return false
+	}
+	ast.Inspect(e, func(n ast.Node) bool {
+		if id, ok := n.(*ast.Ident); ok && w.objOf(id) == obj {
+			found = true
+		}
+		return true
+	})
+	return found
+}
+
+func (w *walker) rangeKeyObj(rs *ast.RangeStmt) types.Object {
+	if id, ok := rs.Key.(*ast.Ident); ok && id.Name != "_" {
+		return w.objOf(id)
+	}
+	return nil
+}
+
+// is `cond` of the form <range key> == x (map keys are unique: at most one iteration satisfies it)
+func (w *walker) isKeyEq(cond ast.Expr, rs *ast.RangeStmt) bool {
+	b, ok := cond.(*ast.BinaryExpr)
+	if !ok || b.Op != token.EQL {
+		return false
+	}
+	ko := w.rangeKeyObj(rs)
+	if ko == nil {
+		return false
+	}
+	for _, side := range []ast.Expr{b.X, b.Y} {
+		if id, ok := side.(*ast.Ident); ok && w.objOf(id) == ko {
+			return true
+		}
+	}
+	return false
+}
+
+func isIntegerType(t types.Type) bool {
+	if t == nil {
+		return false
+	}
+	b, ok := t.Underlying().(*types.Basic)
+	return ok && b.Info()&types.IsInteger != 0
 }
 
 func (w *walker) rootIdent(e ast.Expr) *ast.Ident {
@@ -298,7 +369,21 @@ func (w *walker) classifyAssign(lhs ast.Expr, tok token.Token, rhs ast.Expr, rs 
 			if w.isLocalTo(root, rs) {
 				lk.local = true
 			} else {
-				lk.mapWrite = true
+				lk.mapWrite, lk.insert = true, true
+				ko := w.rangeKeyObj(rs)
+				keyed := false
+				if id, ok := ix.Index.(*ast.Ident); ok && ko != nil && w.objOf(id) == ko {
+					keyed = true
+				}
+				if !keyed && !(rhs != nil && isConstExpr(rhs) && tok == token.ASSIGN) {
+					lk.loose = true
+				}
+				if root != nil && w.mentions(rhs, w.objOf(root)) {
+					lk.loose = true
+				}
+				if w.mentions(ix.Index, w.objOf(root)) {
+					lk.loose = true
+				}
 			}
 			return
 		}
@@ -315,8 +400,13 @@ func (w *walker) classifyAssign(lhs ast.Expr, tok token.Token, rhs ast.Expr, rs 
 		return
 	}
 	switch tok {
-	case token.ADD_ASSIGN, token.SUB_ASSIGN, token.OR_ASSIGN, token.AND_ASSIGN, token.XOR_ASSIGN, token.MUL_ASSIGN, token.INC, token.DEC:
-		lk.accum = true
+	case token.ADD_ASSIGN, token.SUB_ASSIGN, token.OR_ASSIGN, token.AND_ASSIGN, token.XOR_ASSIGN, token.INC, token.DEC:
+		// commutative only on integers (string += is concatenation, float + is not associative)
+		if isIntegerType(w.p.TypesInfo.TypeOf(lhs)) {
+			lk.accum = true
+		} else {
+			lk.effect = true
+		}
 	default:
 		lk.outerAsgn = true
 	}
@@ -331,7 +421,14 @@ func (w *walker) leafs(stmts []ast.Stmt, rs *ast.RangeStmt, lk *leafKinds, inNes
 			if x.Init != nil {
 				w.leafs([]ast.Stmt{x.Init}, rs, lk, inNested)
 			}
+			ke := w.isKeyEq(x.Cond, rs)
+			if ke {
+				lk.keyEqDepth++
+			}
 			w.leafs(x.Body.List, rs, lk, inNested)
+			if ke {
+				lk.keyEqDepth--
+			}
 			if x.Else != nil {
 				w.leafs([]ast.Stmt{x.Else}, rs, lk, inNested)
 			}
@@ -390,9 +487,19 @@ func (w *walker) leafs(stmts []ast.Stmt, rs *ast.RangeStmt, lk *leafKinds, inNes
 			lk.local = true
 		case *ast.ReturnStmt:
 			lk.ret = true
+			if lk.keyEqDepth == 0 {
+				for _, res := range x.Results {
+					if !isConstExpr(res) {
+						lk.retNonConst = true
+					}
+				}
+			}
 		case *ast.BranchStmt:
 			if x.Tok == token.BREAK && !inNested {
 				lk.ret = true
+				if lk.keyEqDepth == 0 {
+					lk.retNonConst = true
+				}
 			}
 			if x.Tok == token.GOTO {
 				lk.effect = true
@@ -409,7 +516,7 @@ func (w *walker) leafs(stmts []ast.Stmt, rs *ast.RangeStmt, lk *leafKinds, inNes
 					if w.isLocalTo(root, rs) {
 						lk.local = true
 					} else {
-						lk.mapWrite = true
+						lk.mapWrite, lk.del = true, true
 					}
 					continue
 				}
@@ -418,6 +525,11 @@ func (w *walker) leafs(stmts []ast.Stmt, rs *ast.RangeStmt, lk *leafKinds, inNes
 				rt := w.p.TypesInfo.TypeOf(sel.X)
 				if isMap(rt) && (sel.Sel.Name == "Add" || sel.Sel.Name == "Remove" || sel.Sel.Name == "AddMulti") {
 					lk.mapWrite = true
+					if sel.Sel.Name == "Remove" {
+						lk.del = true
+					} else {
+						lk.insert = true
+					}
 					continue
 				}
 			}
@@ -460,6 +572,20 @@ func (w *walker) sortedAfter(obj types.Object, after token.Pos) bool {
 	return found
 }
 
+// normalised text of the ranged expression: variables become "_" (renaming a receiver or a local does not change it)
+func (w *walker) exprNorm(e ast.Expr) string {
+	if id, ok := e.(*ast.Ident); ok {
+		if _, isVar := w.objOf(id).(*types.Var); isVar {
+			return "_"
+		}
+		return id.Name
+	}
+	if ix, ok := e.(*ast.IndexExpr); ok {
+		return w.exprNorm(ix.X) + "[]"
+	}
+	return w.calleeName(e)
+}
+
 func (w *walker) classifyRange(rs *ast.RangeStmt) string {
 	lk := &leafKinds{collect: map[types.Object]bool{}}
 	w.leafs(rs.Body.List, rs, lk, false)
@@ -481,16 +607,22 @@ func (w *walker) classifyRange(rs *ast.RangeStmt) string {
 		if lk.mapWrite || lk.accum {
 			return "SynEffect"
 		}
-		return "SynLookup"
+		if lk.retNonConst {
+			return "SynLookup"
+		}
+		return "SynMember"
 	case lk.mapWrite:
 		if lk.accum {
 			return "SynEffect"
+		}
+		if lk.loose || (lk.insert && lk.del) {
+			return "SynBuildMapLoose"
 		}
 		return "SynBuildMap"
 	case lk.accum:
 		return "SynAccum"
 	default:
-		return "SynLookup" // no write at all
+		return "SynMember" // no write, no exit
 	}
 }
 
@@ -567,7 +699,7 @@ func (w *walker) visitFunc(key string, body *ast.BlockStmt) {
 				k := w.rel + "|" + key
 				ord := w.ordMap[k]
 				w.ordMap[k] = ord + 1
-				*w.sites = append(*w.sites, mapSite{pkg: w.rel, fn: key, ord: ord, typ: w.typeStr(t),
+				*w.sites = append(*w.sites, mapSite{pkg: w.rel, fn: key, ord: ord, expr: w.exprNorm(x.X), typ: w.typeStr(t),
 					syn: w.classifyRange(x), scp: scopeOf(w.rel), calls: w.calls(x.Body)})
 			}
 		case *ast.GoStmt:
@@ -748,7 +880,7 @@ func main() {
 		if i == len(sites)-1 {
 			sep = ""
 		}
-		fmt.Printf("  mk_site %s %s %d %s %s %s %s%s\n", coqString(s.pkg), coqString(s.fn), s.ord, coqString(s.typ), s.syn, s.scp, coqStrList(s.calls), sep)
+		fmt.Printf("  mk_site %s %s %d %s %s %s %s %s%s\n", coqString(s.pkg), coqString(s.fn), s.ord, coqString(s.expr), coqString(s.typ), s.syn, s.scp, coqStrList(s.calls), sep)
 	}
 	fmt.Println("].")
 	fmt.Println("Definition toslice_uses : list ts_use := [")
